@@ -13,6 +13,7 @@ package harness
 
 import (
 	"bytes"
+	"context"
 	"encoding/binary"
 	"errors"
 	"fmt"
@@ -26,7 +27,12 @@ import (
 	"testing"
 	"time"
 
+	"github.com/DataDog/datadog-traceroute/common"
+	"github.com/DataDog/datadog-traceroute/icmp"
 	"github.com/DataDog/datadog-traceroute/packets"
+	"github.com/DataDog/datadog-traceroute/result"
+	"github.com/DataDog/datadog-traceroute/tcp"
+	"github.com/DataDog/datadog-traceroute/udp"
 )
 
 // inNetns runs fn on a goroutine whose OS thread has been moved into a fresh network namespace (loopback up,
@@ -431,6 +437,109 @@ func TestC13KernelSink(t *testing.T) {
 		}
 	}, func(t *testing.T, c *sinkCase, rec *Recorder) []Diff {
 		ds := checkSink(t, c, rec)
+		for _, d := range ds {
+			if d.Sig == "harness-infra" {
+				fmt.Println(d.Msg)
+				t.Fatalf("%s", d.Msg)
+			}
+		}
+		return ds
+	})
+}
+
+type sendErrCase struct {
+	Variant string `json:"variant"` // udp4 | icmp4 | tcp
+	FailTTL int    `json:"fail_ttl"` // the kernel refuses (EPERM) the probe that carries this TTL
+	MaxTTL  int    `json:"max_ttl"`
+}
+
+// checkSendErr runs one real traceroute (real raw sink, real capture handle) in a private namespace whose packet
+// filter refuses one probe: sendto() fails with EPERM for the probe with TTL FailTTL and for nothing else.
+func checkSendErr(t *testing.T, c *sendErrCase, rec *Recorder) []Diff {
+	var ds []Diff
+	add := func(sig, f string, a ...any) { ds = append(ds, Diff{"C10", sig, fmt.Sprintf(f, a...)}) }
+	setup := []string{
+		"ip link add vh0 type veth peer name vh1", "ip addr add 10.9.0.1/24 dev vh0", "ip link set vh0 up", "ip link set vh1 up",
+		"ip route add default dev vh0",
+		fmt.Sprintf("iptables -A OUTPUT -d 10.9.7.7 -m ttl --ttl-eq %d -j DROP", c.FailTTL),
+	}
+	type outcome struct {
+		run     *result.TracerouteRun
+		err     error
+		fdDelta int
+		fds     string
+	}
+	done := make(chan outcome, 1)
+	infra := make(chan error, 1)
+	go func() {
+		infra <- inNetns(setup, func() error {
+			target := netip.MustParseAddr("10.9.7.7")
+			before := countFds()
+			var o outcome
+			switch c.Variant {
+			case "udp4":
+				o.run, o.err = udp.NewUDPv4(net.IP(target.AsSlice()), 33434, 1, uint8(c.MaxTTL), 2*time.Millisecond, 150*time.Millisecond, false).Traceroute()
+			case "tcp":
+				o.run, o.err = tcp.NewTCPv4(net.IP(target.AsSlice()), 443, 1, uint8(c.MaxTTL), 2*time.Millisecond, 150*time.Millisecond, false, false).Traceroute()
+			case "icmp4":
+				o.run, o.err = icmp.RunICMPTraceroute(context.Background(), icmp.Params{Target: target, ParallelParams: common.TracerouteParallelParams{TracerouteParams: common.TracerouteParams{
+					MinTTL: 1, MaxTTL: uint8(c.MaxTTL), TracerouteTimeout: 150 * time.Millisecond, PollFrequency: 20 * time.Millisecond, SendDelay: 2 * time.Millisecond}}})
+			}
+			o.fdDelta = countFds() - before
+			if o.fdDelta > 0 {
+				o.fds = listFds()
+			}
+			done <- o
+			return nil
+		})
+	}()
+	select {
+	case o := <-done:
+		<-infra
+		switch {
+		case o.err == nil:
+			add("send-error-lost", "%s: the kernel refused the probe with TTL %d (EPERM) but the run returned a result and no error", c.Variant, c.FailTTL)
+		case o.run != nil:
+			add("result-and-error", "%s: the run returned both a result and the error %v", c.Variant, o.err)
+		case !errors.Is(o.err, syscall.EPERM):
+			add("cause-lost", "%s: the error does not wrap the cause EPERM: %v", c.Variant, o.err)
+		}
+		if o.fdDelta > 0 {
+			add("descriptor-leak", "%s: %d descriptors more after the failed run: %s", c.Variant, o.fdDelta, o.fds)
+		}
+		rec.CaseEnumerated(true, map[string]any{"case": c, "err": fmt.Sprint(o.err)}, "variant:"+c.Variant)
+	case err := <-infra:
+		// the namespace could not be made (or the run panicked through inNetns)
+		select {
+		case o := <-done:
+			_ = o
+		default:
+		}
+		if err != nil {
+			return []Diff{{"C09", "harness-infra", err.Error()}}
+		}
+	case <-time.After(10 * time.Second):
+		add("run-never-returns", "%s: the kernel refused the probe with TTL %d (EPERM); 10 s later the run (timeout 150 ms, %d TTLs) has still not returned", c.Variant, c.FailTTL, c.MaxTTL)
+		rec.CaseEnumerated(true, map[string]any{"case": c, "err": "never returned"}, "variant:"+c.Variant)
+	}
+	return ds
+}
+
+// TestC10KernelSendError: a failing send on the real kernel path (C10's fault "the k-th send fails", below the seam
+// the simulated wire replaces).
+func TestC10KernelSendError(t *testing.T) {
+	rec := NewRecorder("C10", "C10KernelSendError", "enumeration on the real kernel (private network namespace, real raw sink and capture handle): udp, icmp and tcp-syn runs towards a target for which the namespace's packet filter refuses exactly the probe with TTL k (sendto fails with EPERM), k in {1, 2, 4}; oracle: the run returns within 10 s with no result and an error that wraps EPERM, and leaves no descriptor open; non-trivial always")
+	rec.Exhaustive = true
+	RunCases(t, rec, func(yield func(*sendErrCase) bool) {
+		for _, v := range []string{"udp4", "icmp4", "tcp"} {
+			for _, k := range []int{1, 2, 4} {
+				if !yield(&sendErrCase{Variant: v, FailTTL: k, MaxTTL: 4}) {
+					return
+				}
+			}
+		}
+	}, func(t *testing.T, c *sendErrCase, rec *Recorder) []Diff {
+		ds := checkSendErr(t, c, rec)
 		for _, d := range ds {
 			if d.Sig == "harness-infra" {
 				fmt.Println(d.Msg)
